@@ -936,17 +936,17 @@ Lemma raw_roundtrip_full (T : Type) (O : NumOps T) (buf : nat) (g g0 : grid T) (
   read_raw O g0 (write_raw buf g ++ rest) = Some (set_data g0 (gr_data g), strip rest).
 Proof. intros H H0 Hs. split; [apply strip_write_raw; auto | apply raw_roundtrip; auto]. Qed.
 
-Lemma state_malformed_rejected (cvs : list (cvinfo (T := R))) (g0 : grid R) :
-  (forall toks, ~ In TClose toks -> read_restart Rops cvs g0 toks = None) /\
-  (forall conf vals, lookup KLower conf = Some vals -> (lead Rops vals < length (gr_lower g0))%nat ->
-     parse_params Rops cvs g0 conf = None) /\
-  (forall toks conf s g1, read_block toks = Some (conf, s) -> parse_params Rops cvs g0 conf = Some g1 ->
-     grid_wf g1 -> (lead Rops (strip s) < length (gr_data g1))%nat -> read_restart Rops cvs g0 toks = None).
+Lemma state_malformed_rejected (T : Type) (O : NumOps T) (cvs : list (cvinfo (T := T))) (g0 : grid T) :
+  (forall toks, ~ In TClose toks -> read_restart O cvs g0 toks = None) /\
+  (forall conf vals, lookup KLower conf = Some vals -> (lead O vals < length (gr_lower g0))%nat ->
+     parse_params O cvs g0 conf = None) /\
+  (forall toks conf s g1, read_block toks = Some (conf, s) -> parse_params O cvs g0 conf = Some g1 ->
+     grid_wf g1 -> (lead O (strip s) < length (gr_data g1))%nat -> read_restart O cvs g0 toks = None).
 Proof.
   split; [|split].
   - intros toks. apply unterminated_block_rejected.
   - intros conf vals. apply short_boundaries_rejected.
-  - intros toks conf s g1. apply short_state_rejected.
+  - intros toks conf s g1 Hb Hp Hwf Hlt. unfold read_restart. rewrite Hb, Hp. apply raw_short_rejected; auto.
 Qed.
 
 Lemma opendx_origin (lower width : list R) (nx : list Z) :
